@@ -60,11 +60,12 @@ def loadsImpl (t : Text) : Loaded :=
   | .ok (.obj kvs) => .strs (kvs.toList.map fun kv => kv.1.toList)
   | .ok _ => .raises
 
-/-- `alnum`: the non-ASCII characters of the case for which Python's `str.isalnum()` holds -/
-def codec (alnum : List Char) : Codec :=
+/-- the field group is fully modelled since /repo <FIXID3> (`pyFieldWord`); `alnum` (the harness's
+    `str.isalnum()` answers) is no longer consulted -/
+def codec (_alnum : List Char) : Codec :=
   { dumps := fun ts => (Json.arr (ts.map fun t => Json.str (ofText t)).toArray).compress.toList
     loads := loadsImpl
-    word := fun c => asciiWord c || alnum.contains c }
+    word := pyFieldWord }
 
 def optText : Option Text → Json
   | none => .null
